@@ -18,7 +18,7 @@ import (
 )
 
 const verifDir = "/verif"
-const repoDir = "/repo"
+var repoDir = "/repo"
 
 type propCfg struct {
 	Modules    []string
@@ -26,6 +26,7 @@ type propCfg struct {
 	NotDecided []string
 	Scans      []func(*run) // closed-world scans and other syntactic obligations
 	Bounded    []func(*run) // bounded stand-ins (thorough tier), never counted as proved
+	BoundedQuick []func(*run) // bounded stand-ins cheap enough for the quick tier as well
 }
 
 type run struct {
@@ -65,6 +66,11 @@ func main() {
 	if flag.NArg() < 1 {
 		fmt.Println("usage: check <property-id> [--tier quick|thorough]")
 		os.Exit(2)
+	}
+	if d := os.Getenv("VERIF_REPO"); d != "" {
+		// self-test only: run the checks against a scratch copy of the repository (never used by the
+		// registered commands, which always verify /repo itself)
+		repoDir = d
 	}
 	prop := flag.Arg(0)
 	// flags may follow the property id
@@ -204,6 +210,9 @@ func main() {
 	if *only == "" {
 		for _, s := range cfg.Scans {
 			s(r)
+		}
+		for _, b := range cfg.BoundedQuick {
+			b(r)
 		}
 		if *tier == "thorough" {
 			for _, b := range cfg.Bounded {
